@@ -9,6 +9,7 @@ unless an option documented as random is on; x0, bounds and user_params are pass
 """
 import copy
 import sys
+import os
 import numpy as np
 import core
 import problems
@@ -180,6 +181,36 @@ SPECIALS = [
 ]
 
 
+def special_digest(name, state, dfols=None):
+    """sha256 over the evaluation sequence and the result of one SPECIALS problem (run in whatever process calls it; with the
+    package object given, in the SAME loaded package as the solves made before)"""
+    import hashlib
+    if dfols is None:
+        dfols = core.import_dfols()
+    for nm, f, x0, kw in SPECIALS:
+        if nm == name:
+            seq, res, _sites, _mut = one_solve(dfols, {"n": len(x0), "x0": x0, "f": f}, kw, state, 100)
+            h = hashlib.sha256()
+            for b in seq:
+                h.update(b)
+            h.update(repr(res).encode())
+            return "%d:%s" % (len(seq), h.hexdigest())
+    raise KeyError(name)
+
+
+def fresh_process_digest(name, state):
+    """the same solve in a fresh interpreter (no earlier solve() call in that process)"""
+    import subprocess
+    import sys
+    code = ("import sys; sys.path.insert(0, %r); import props.c19 as m; print('DIGEST', m.special_digest(%r, %d))"
+            % (os.path.dirname(os.path.dirname(os.path.abspath(__file__))), name, state))
+    p = subprocess.run([sys.executable, "-c", code], capture_output=True, text=True, timeout=300, env=dict(os.environ))
+    for line in p.stdout.splitlines():
+        if line.startswith("DIGEST "):
+            return line.split(" ", 1)[1]
+    raise RuntimeError("fresh-process solve failed: " + (p.stderr or p.stdout)[-300:])
+
+
 def _all(ctx):
     if hasattr(ctx, "_c19"):
         return ctx._c19
@@ -203,6 +234,12 @@ def _all(ctx):
         b = one_solve(dfols, prob, kw, 8765 + j, 100)
         rows.append((nprob + j, name, kw, prob["n"], a, b))
         ctx.seen(("c19", nprob + j, name))
+        # ... and the result must not depend on solve() calls made EARLIER in the same process
+        here = special_digest(name, 4321 + j, dfols=dfols)
+        fresh = fresh_process_digest(name, 4321 + j)
+        if not hasattr(ctx, "_c19_fresh"):
+            ctx._c19_fresh = []
+        ctx._c19_fresh.append((name, here, fresh))
     ctx._c19 = rows
     return rows
 
@@ -252,6 +289,12 @@ def search(ctx):
             ctx.fail("C19:not-reproducible|%s%s" % (name, "|rank-repair-draws" if repair else ""),
                      "family %s: evaluation sequences differ from evaluation %d on under different global RNG states (results %s)" % (name, k + 1, "differ" if a[1] != b[1] else "equal"),
                      {"problem_seed": [ctx.seed, 1919, i], "family": name})
+    for name, here, fresh in getattr(ctx, "_c19_fresh", []):
+        stats["fresh_process_compared"] = stats.get("fresh_process_compared", 0) + 1
+        if here != fresh:
+            ctx.fail("C19:not-reproducible|%s|depends-on-earlier-solve-calls" % name,
+                     "problem %s: a solve() made after other solve() calls in the same process differs from the same call in a fresh interpreter "
+                     "(evaluations:digest %s vs %s)" % (name, here, fresh), {"problem_seed": [ctx.seed, 1919, 0], "family": name, "fresh_process": True})
     ctx.cov["reproducibility"] = stats
 
 
@@ -267,6 +310,8 @@ def replay(payload):
             a = one_solve(dfols, prob, kw, 1, 100)
             b = one_solve(dfols, prob, kw, 2, 100)
             bad = a[3] or b[3] or (a[0] != b[0]) or (a[1] != b[1])
+            if rp.get("fresh_process"):
+                bad = bad or special_digest(name, 4321, dfols=dfols) != fresh_process_digest(name, 4321)
             print("replay:", "still fails" if bad else "property holds on this input now")
             return 1 if bad else 0
     rng = np.random.default_rng(rp["problem_seed"])
